@@ -8,6 +8,8 @@ use crate::{Iri, IriRef, resolve::BaseIri};
 #[derive(Clone, Debug)]
 pub struct Relativizer<T> {
     base: T,
+    hier_begin: usize, // just after "scheme:"
+    path_begin: usize,
     query_end: usize,
     path_end: usize,
     slashes: Vec<usize>,
@@ -20,8 +22,8 @@ impl<T: Deref<Target = str>> Relativizer<T> {
     /// Relative IRI references produced by this [`Relativizer`] will contain at most `parents` ../
     pub fn new(base: BaseIri<T>, parents: u8) -> Self {
         let s = base.as_str();
-        let path_begin =
-            base.scheme().len() + 1 + base.authority().map(|a| a.len() + 2).unwrap_or(0);
+        let hier_begin = base.scheme().len() + 1;
+        let path_begin = hier_begin + base.authority().map(|a| a.len() + 2).unwrap_or(0);
         let path_end = path_begin + base.path().len();
         let query_end = s[path_end..]
             .find('#')
@@ -55,6 +57,8 @@ impl<T: Deref<Target = str>> Relativizer<T> {
 
         Self {
             base,
+            hier_begin,
+            path_begin,
             query_end,
             path_end,
             slashes,
@@ -68,9 +72,16 @@ impl<T: Deref<Target = str>> Relativizer<T> {
     }
 
     /// Relativize the given IRI against the base of this [`Relativizer`] if possible.
+    ///
+    /// Resolving the returned reference against the base always gives back `iri`;
+    /// `None` is returned when no such reference exists with at most `parents` ../
+    /// (in particular, when the path of `iri` contains dot segments,
+    /// which never survive resolution).
     pub fn relativize<'a>(&self, iri: Iri<&'a str>) -> Option<IriRef<Cow<'a, str>>> {
         let lcp = longest_common_prefix(&self.base, iri.as_str());
-        if lcp >= self.query_end {
+        if lcp >= self.query_end
+            && (iri.len() == self.query_end || iri[self.query_end..].starts_with('#'))
+        {
             // iri is identicical to base or differs in the fragment only.
             // regardless, we must include the fragment (if any) in the relative IRI.
             Some(IriRef::new_unchecked(iri[self.query_end..].into()))
@@ -81,53 +92,91 @@ impl<T: Deref<Target = str>> Relativizer<T> {
             // → we include query and-or fragment in the relative IRI
             Some(IriRef::new_unchecked(iri[self.path_end..].into()))
         } else if lcp == self.path_end
+            && self.path_end == self.query_end
             && (iri.len() == self.path_end || iri[self.path_end..].starts_with(['?', '#']))
         {
             // both iri and base have exactly the same path, but differ after
             // → same as above
+            // (unless base has a query and iri has none: a reference with an empty path
+            // would inherit the query of base, so that case is handled below)
             Some(IriRef::new_unchecked(iri[self.path_end..].into()))
         } else if lcp >= self.pseudoroot {
-            // iri and base have similar paths
-            for (nb, slash) in self.slashes.iter().copied().enumerate() {
-                if lcp > slash {
-                    return if nb == 0 {
-                        if iri.len() == slash + 1 || iri[slash + 1..].starts_with(['?', '#']) {
-                            // insert ./ if there is no path element after the last slash
-                            Some(IriRef::new_unchecked(
-                                format!("./{}", &iri[slash + 1..]).into(),
-                            ))
-                        } else {
-                            Some(IriRef::new_unchecked(iri[slash + 1..].into()))
-                        }
-                    } else {
-                        // insert the expected amount of '../'
-                        let mut parts = vec![".."; nb + 1];
-                        parts[nb] = &iri[slash + 1..];
-                        Some(IriRef::new_unchecked(parts.join("/").into()))
-                    };
-                }
-            }
-            if self.slashes.is_empty() {
-                if iri[self.pseudoroot - 1..].starts_with('/')
-                    && (iri.len() == self.pseudoroot
-                        || iri[self.pseudoroot..].starts_with(['?', '#']))
-                {
-                    Some(IriRef::new_unchecked(
-                        format!("./{}", &iri[self.pseudoroot..]).into(),
-                    ))
-                } else {
-                    Some(IriRef::new_unchecked(iri[self.pseudoroot..].into()))
-                }
-            } else {
-                let nb = self.slashes.len();
-                let mut parts = vec![".."; nb + 1];
-                parts[nb] = &iri[self.pseudoroot..];
-                Some(IriRef::new_unchecked(parts.join("/").into()))
-            }
+            // iri and base have similar paths:
+            // nb is the number of '../' required to reach their deepest common directory,
+            // start is the position where that directory ends
+            let (nb, start) = self
+                .slashes
+                .iter()
+                .copied()
+                .enumerate()
+                .find(|(_, slash)| lcp > *slash)
+                .map(|(nb, slash)| (nb, slash + 1))
+                .unwrap_or((self.slashes.len(), self.pseudoroot));
+            self.relative_path(iri.unwrap(), nb, start)
         } else {
             // iri and base are too different to relativize
             None
         }
+    }
+
+    /// Build `nb` times '../' followed by `iri[start..]`,
+    /// escaping the latter with './' where it would otherwise be misinterpreted.
+    fn relative_path<'a>(
+        &self,
+        iri: &'a str,
+        nb: usize,
+        start: usize,
+    ) -> Option<IriRef<Cow<'a, str>>> {
+        fn path_of(s: &str) -> &str {
+            &s[..s.find(['?', '#']).unwrap_or(s.len())]
+        }
+        let has_authority = self.path_begin > self.hier_begin;
+        let iri_path = path_of(&iri[self.path_begin..]);
+        if iri_path.split('/').any(|seg| seg == "." || seg == "..") {
+            // dot segments would be removed when resolving
+            return None;
+        }
+        if !has_authority && iri_path.starts_with("//") {
+            // iri has an authority while base has none
+            return None;
+        }
+        let rest = &iri[start..];
+        let path = path_of(rest);
+        let colon_in_first_segment = path.split('/').next().unwrap_or("").contains(':');
+        let rel: Cow<'a, str> = if nb > 0 {
+            // insert the expected amount of '../'
+            format!("{}{}", "../".repeat(nb), rest).into()
+        } else if start > self.path_begin {
+            // rest is relative to the directory of base:
+            // insert ./ if it has no path, or if its path starts with an empty segment
+            // or with a segment containing a colon
+            if path.is_empty() || path.starts_with('/') || colon_in_first_segment {
+                format!("./{rest}").into()
+            } else {
+                rest.into()
+            }
+        } else if has_authority {
+            // the path of base is empty, rest contains the whole path of iri
+            if path.is_empty() {
+                // only a network-path reference can have an empty path and no query
+                iri[self.hier_begin..].into()
+            } else if !path.starts_with('/') || path.starts_with("//") {
+                // iri has a longer authority, or its path would be mistaken for an authority
+                return None;
+            } else {
+                rest.into()
+            }
+        } else {
+            // the path of base has no slash, rest contains the whole path of iri
+            if path.is_empty() {
+                format!(".{rest}").into()
+            } else if colon_in_first_segment {
+                format!("./{rest}").into()
+            } else {
+                rest.into()
+            }
+        };
+        Some(IriRef::new_unchecked(rel))
     }
 }
 
